@@ -1,11 +1,13 @@
 """C03 — documents built from Markdown constructs parse to the tree they were built from."""
 import multiprocessing as mp
+import os
 import random
+import re
 
 from harness import core, htmlnorm, treegen, trees, xdoc
 
 GEN = ['gen_tables', 'gen_regex', 'gen_config', 'gen_escapes', 'gen_core']
-THEOREMS = ['C03_fragment_emphasis_instance', 'C03_fragment_rules_instance', 'C03_thematic_break', 'C03_thematic_configs', 'C03_setext_heading', 'C03_setext_hypotheses', 'C03_indented_code_block', 'C03_indented_code_hypotheses', 'C03_link_scanners_are_the_source', 'C03_fragment_parses', 'C03_fragment_token_tree', 'C03_fragment_hypotheses', 'C03_fragment_fuel_suffices', 'C03_fragment_document',
+THEOREMS = ['C03_fragment_inert_instance', 'C03_fragment_emphasis_instance', 'C03_fragment_rules_instance', 'C03_thematic_break', 'C03_thematic_configs', 'C03_setext_heading', 'C03_setext_hypotheses', 'C03_indented_code_block', 'C03_indented_code_hypotheses', 'C03_link_scanners_are_the_source', 'C03_fragment_parses', 'C03_fragment_token_tree', 'C03_fragment_hypotheses', 'C03_fragment_fuel_suffices', 'C03_fragment_document',
             'C03_fragment_html', 'C03_fragment_markdown_html', 'C03_fragment_html_instance', 'C03_fragment_paragraph_lines_instance', 'C03_fragment_headings_instance', 'C03_outline_lists', 'C03_outline_html', 'C03_outline_instance',
             'C03_fragment_document_markdown', 'C03_fragment_document_configs', 'C03_bounded_trees', 'C03_family_is_not_vacuous']
 TRUSTED = ['harness/treegen.py: the tree grammar, the speller (every free choice drawn and counted) and the direct HTML writer - the independent oracle; '
@@ -71,6 +73,20 @@ FRAG_CONT = [w for w in FRAG_FIRST if w[0] != '=']
 FRAG_HEAD = [w for w in FRAG_WORDS if '#' not in w]
 
 
+# words with delimiters that can neither open nor close anything where they stand (leaf FPara: inert_para_b of Proofs/InertProse.v)
+FRAG_INERT = ['*', '**', '_', '__', '*open', '**open', '_open', '__open', '[', '![', ']', '[x]', '![y]', 'f(x)[i]', '2 * 3', 'a_b', 'snake_case', '(*', '(_', '.*',
+              '[1]', '[^n]', '] [', '!', '!x', 'AT&T', '&', 'a&b', '&amp', 'x](y', 'a*', 'b_', '*)']
+
+
+def frag_inert(lines):
+    """inert_para_b, decided independently of the model: no backslash, backtick, ~, <, $, {, |; no "](" ; not both & and ; ; no run of * or _ that can close"""
+    from . import c14
+    s = '\n'.join(lines)
+    if any(c in s for c in '\\`~<${|') or '](' in s or ('&' in s and ';' in s):
+        return False
+    return not any(c14.run_is_closer(s, m.start(), m.end()) for m in re.finditer(r'\*+|_+', s))
+
+
 EM_WORDS = ['alpha', 'b', 'Zed', 'x1', 'end.', 'q)', '(r', 'a-b', 'c+d', 'e=f', 'k,', '"l"', "m'", 'n:', 'o;', '2.5']
 EM_INNER = ['this', 'Zed', 'x1', 'two', 'a-b', 'q, r', '2.5', 'é', '中']
 FRAG_CODE = ['code', '  x = 1', '', '# not a heading', '- not a list', '> not a quote', '    deep', '*a*', '<b>', '| a |', '[x]: /y', 'a  b  ']
@@ -93,10 +109,14 @@ def frag_tree(rng, depth):
         if rng.random() < 0.2:                               # an ATX heading: title without '#', not beginning or ending with white space
             title = ' '.join(rng.choice(FRAG_HEAD) for _ in range(rng.randint(1, 4)))
             return ('h', rng.randint(1, 6), title)
-        lines = [' '.join([rng.choice(FRAG_FIRST)] + [rng.choice(FRAG_WORDS) for _ in range(rng.randint(0, 4))])]
-        while rng.random() < 0.35 and len(lines) < 4:       # continuation lines: not beginning with '=' either (setext underline)
-            lines.append(' '.join([rng.choice(FRAG_CONT)] + [rng.choice(FRAG_WORDS) for _ in range(rng.randint(0, 4))]))
-        return ('p', lines)
+        for _ in range(20):
+            words = FRAG_WORDS + FRAG_INERT if rng.random() < 0.5 else FRAG_WORDS      # half the paragraphs may hold inert delimiters
+            lines = [' '.join([rng.choice(FRAG_FIRST)] + [rng.choice(words) for _ in range(rng.randint(0, 4))])]
+            while rng.random() < 0.35 and len(lines) < 4:       # continuation lines: not beginning with '=' either (setext underline)
+                lines.append(' '.join([rng.choice(FRAG_CONT)] + [rng.choice(words) for _ in range(rng.randint(0, 4))]))
+            if frag_inert(lines):
+                return ('p', lines)
+        return ('p', ['alpha'])
     kids = [frag_tree(rng, depth - 1) for _ in range(rng.randint(1, 3))]
     for i in range(1, len(kids)):                                   # two lists are never neighbours
         if kids[i][0] == 'i' and kids[i - 1][0] == 'i':
@@ -107,6 +127,72 @@ def frag_tree(rng, depth):
     if kids[0][0] == 'r' and mk in '-*' and kids[0][1][0] == mk:      # `- ---` would be a thematic break as a whole
         kids[0] = ('r', ('_' if mk == '-' else '-') * len(kids[0][1]))
     return ('i', mk, rng.randint(1, 4), kids)
+
+
+def _zl(x):
+    return '[' + '; '.join(str(ord(c)) for c in x) + ']'
+
+
+def frag_gallina(t):
+    """the tree as a term of Spec/Fragment.v's ftree"""
+    if t[0] == 'p':
+        return '(FPara %d %s [%s])' % (ord(t[1][0][0]), _zl(t[1][0][1:]), '; '.join(_zl(l) for l in t[1][1:]))
+    if t[0] == 'h':
+        return '(FHead %d %d %s)' % (t[1], ord(t[2][0]), _zl(t[2][1:]))
+    if t[0] == 'r':
+        return '(FRule %d %d)' % (ord(t[1][0]), len(t[1]) - 3)
+    if t[0] == 'e':
+        return '(FEm %d %s %d %s %s %s)' % (ord(t[1][0]), _zl(t[1][1:]), ord(t[2][0]), 'true' if len(t[2]) == 2 else 'false', _zl(t[3]), _zl(t[4]))
+    if t[0] == 'f':
+        def sl(l):
+            if l == '':
+                return 'SBlank'
+            k = len(l) - len(l.lstrip(' '))
+            return '(SLine %d %d %s)' % (k, ord(l[k]), _zl(l[k + 1:]))
+        return '(FFence %d %d [%s])' % (ord(t[1][0]), len(t[1]), '; '.join(sl(l) for l in t[2]))
+    kids = '[' + '; '.join(frag_gallina(k) for k in t[-1]) + ']'
+    if t[0] == 'q':
+        return '(FQuote %s)' % kids
+    mk = '(MBullet %d)' % ord(t[1]) if len(t[1]) == 1 else '(MOrdered %s %d)' % (_zl(t[1][:-1]), ord(t[1][-1]))
+    return '(FItem %s %d %s)' % (mk, t[2], kids)
+
+
+def _frag_wf_shard(arg):
+    k, ts = arg
+    d = os.path.join(core.ROOT, 'coq', 'cases')
+    os.makedirs(d, exist_ok=True)
+    path = os.path.join(d, 'C03Cases%d.v' % k)
+    with open(path, 'w') as f:
+        f.write('From Coq Require Import ZArith List Bool.\nFrom Mistletoe Require Import Base.Sx Base.PyStr Base.PyText Proofs.ListLaw Spec.Fragment Proofs.FragmentP.\n'
+                'Import ListNotations.\nOpen Scope Z_scope.\nDefinition ts : list ftree := [\n  %s].\n'
+                'Eval vm_compute in map (fun t => (wf_b t, concat (text_of (spell t)))) ts.\n' % ';\n  '.join(frag_gallina(t) for t in ts))
+    rc, out = core.sh(['coqc', '-Q', 'theories', 'Mistletoe', path], timeout=900, cwd=os.path.join(core.ROOT, 'coq'))
+    for junk in [path[:-2] + ext for ext in ('.vo', '.vok', '.vos', '.glob', '.v')] + [os.path.join(d, '.C03Cases%d.aux' % k)]:
+        try:
+            os.remove(junk)
+        except OSError:
+            pass
+    if rc != 0 or '=' not in out:
+        return None, out[-400:]
+    body = out.split('=', 1)[1].rsplit(': list', 1)[0]
+    res = []
+    for m in re.finditer(r'\(\s*(true|false),\s*\[([^\]]*)\]\)', body):
+        res.append((m.group(1) == 'true', ''.join(chr(int(x)) for x in re.findall(r'-?\d+', m.group(2)))))
+    return (res, '') if len(res) == len(ts) else (None, 'unreadable output: ' + out[-300:])
+
+
+def model_frag_wf(ts):
+    """evaluates the theorem's hypothesis wf_b, and the text the model spells, on the trees inside the proof assistant: (wf, text) per tree"""
+    from concurrent.futures import ThreadPoolExecutor
+    shards = [(k, ts[i:i + 25]) for k, i in enumerate(range(0, len(ts), 25))]
+    with ThreadPoolExecutor(max_workers=core.NPROC) as ex:
+        parts = list(ex.map(_frag_wf_shard, shards))
+    out = []
+    for res, err in parts:
+        if res is None:
+            return None, err
+        out += res
+    return out, ''
 
 
 def frag_spell(t):
@@ -375,6 +461,21 @@ def run(ctx, only=None):
         if not ok:
             ctx.failing.append({'interface': 'oracle(fragment)', 'input': {'text': text, 'seed': seed, 'depth': depth},
                                 'what': 'a tree of plain paragraphs, fenced code, quotes and single-item lists does not parse to the tree it was written from', 'observed': got, 'expected': want, 'kf': None})
+    ctx.count('fragment_trees_with_inert_delimiters', sum(1 for (_, d_), (text, _, _, _) in zip(fjobs, fres) if re.search(r'[\[\]!&]|\*[^*\n]|_', text) ))
+    # the theorem's own hypothesis (wf_b) and the text it speaks about (spell), evaluated in the proof assistant on a sample of those trees
+    if not ctx.proof_failures:
+        sample = [(seed, depth) for (seed, depth) in fjobs if depth <= 4][:(150 if ctx.quick() else 1500)]
+        sts = [frag_tree(random.Random(seed), depth) for (seed, depth) in sample]
+        res, err = model_frag_wf(sts)
+        if res is None or len(res) != len(sts):
+            ctx.disagreements.append({'interface': 'X-hyp(fragment)', 'input': {'seed': sample[0][0], 'depth': sample[0][1]}, 'model': 'wf_b could not be evaluated: ' + err, 'impl': ''})
+        else:
+            for (seed, depth), t, (wf, mtext) in zip(sample, sts, res):
+                ctx.count('fragment_trees_with_hypotheses_checked_in_the_model')
+                text = '\n'.join(frag_spell(t)) + '\n'
+                if not wf or mtext != text:
+                    ctx.disagreements.append({'interface': 'X-hyp(fragment)', 'input': {'text': text, 'seed': seed, 'depth': depth},
+                                              'model': 'wf_b = %s, spelled text %r' % (wf, mtext), 'impl': 'a tree of the fragment by the harness generator, spelled %r' % text})
     # the outline lists of the second unbounded theorem, on the implementation
     ojobs = [rng.randint(0, 2 ** 40) for _ in range(800 if ctx.quick() else 20000)]
     with mp.Pool(core.NPROC) as pool:
